@@ -74,9 +74,9 @@ impl MT204 {
     pub fn parse_from_block4(block4: &str) -> Result<Self, ParseError> {
         let mut parser = MessageParser::new(block4, "204");
 
-        // Parse header fields in the correct order (matching to_mt_string)
-        let sum_of_amounts = parser.parse_field::<Field19>("19")?;
+        // Parse header fields in the SR2025 order of Sequence A: 20, 19, 30 (matching to_mt_string)
         let transaction_reference = parser.parse_field::<Field20>("20")?;
+        let sum_of_amounts = parser.parse_field::<Field19>("19")?;
         let execution_date = parser.parse_field::<Field30>("30")?;
 
         // Parse optional Field 57 - Account With Institution
@@ -292,8 +292,8 @@ impl crate::traits::SwiftMessageBody for MT204 {
         // Call the existing public method implementation
         let mut result = String::new();
 
-        append_field(&mut result, &self.sum_of_amounts);
         append_field(&mut result, &self.transaction_reference);
+        append_field(&mut result, &self.sum_of_amounts);
         append_field(&mut result, &self.execution_date);
         append_optional_field(&mut result, &self.account_with_institution);
         append_optional_field(&mut result, &self.beneficiary_institution);
